@@ -238,3 +238,28 @@ def big_program_cases():
                        "6:%s 6:MS.2.u:p9.1 6:RD.7 6:%s 6:MS.2.u:p9.3 5:RD.1 5:%s 5:MS.1.u:p9.4 X" % (cr(2), cr(2), cr(1))):
             out.append("ALG %s 1 PROGS %s NF sp:p9:- OR sp:p1:-,sp:p9:- SCRIPT %s" % (hx("reno"), progs, script))
     return out
+
+
+def same_names_other_program_cases():
+    """the SAME update list issued under different programs in which the names mean different registers (other index, other
+    volatility, a local, undeclared): every call is resolved against the scope it is given"""
+    pa = "(def (Report (x 0)) (volatile alpha 1) (beta 2)) (when true (:= Report.x (+ alpha beta)) (report))"
+    pb = "(def (Report (x 0)) (beta 2) (alpha 1)) (when true (:= Report.x (+ alpha beta)) (report))"
+    pc = "(def (Report (x 0)) (beta 2)) (when true (:= alpha 3) (:= Report.x (+ alpha beta)) (report))"
+    pd = "(def (Report (x 0) (alpha 4)) (gamma 1) (volatile beta 2)) (when true (:= Report.x beta) (report))"
+    progs = "pa=%s,pb=%s,pc=%s,pd=%s" % (hx(pa), hx(pb), hx(pc), hx(pd))
+    out = []
+    lists = ["%s=1;%s=30;%s=16000" % (hx("alpha"), hx("beta"), hx("Cwnd")), "%s=7" % hx("alpha"), "%s=9;%s=8" % (hx("beta"), hx("alpha")),
+             "%s=5" % hx("beta")]
+    orders = [("pa", "pb", "pc", "pd"), ("pb", "pa", "pd", "pc"), ("pc", "pa", "pb", "pa"), ("pd", "pc", "pb", "pa"), ("pa", "pc", "pa", "pb")]
+    for ul in lists:
+        for o in orders:
+            nf = "sp:%s:-,uf:%s" % (o[0], ul)
+            orr = ",".join("sp:%s:-,uf:%s" % (q, ul) for q in o[1:]) + ",uf:%s" % ul
+            out.append("ALG %s 1 PROGS %s NF %s OR %s SCRIPT 5:RD.1 5:CR.1.10.1460.1.2.3.4.%s 5:MS.1.u:%s.1 5:MS.1.u:%s.2 X"
+                       % (hx("reno"), progs, nf, orr, hx("reno"), o[0], o[-1]))
+            # the same through set_program's own field list
+            orr2 = ",".join("sp:%s:%s" % (q, ul) for q in o[1:])
+            out.append("ALG %s 1 PROGS %s NF sp:%s:%s OR %s SCRIPT 5:RD.1 5:CR.1.10.1460.1.2.3.4.%s 5:MS.1.u:%s.1 X"
+                       % (hx("reno"), progs, o[0], ul, orr2, hx("reno"), o[0]))
+    return out
